@@ -116,6 +116,28 @@ pub fn gen_live(rng: &mut Rng, thorough: bool) -> J {
 pub fn gen_mix(rng: &mut Rng, _thorough: bool) -> J {
     // a sub of k >= 2 discrete leaves (or an array of them); parents pairwise different in >= 2 positions
     let k = 2 + rng.below(4) as usize;
+    if rng.chance(1, 4) {
+        // a variant root whose parents carry different alternatives: the offspring's alternative is chosen by rank
+        // selection with the SELECTION PRESSURE, so below pressure 1 it is not always the first parent's
+        let mut map = FxHashMap::default();
+        for name in ["a", "b", "c"] { map.insert(name.to_string(), Box::new(spec::Node::Bool { init: false })); }
+        let spec = spec::Spec(spec::Node::Variant { map, init: "a".into() });
+        let np = 2 + rng.below(2) as usize;
+        let parents: Vec<value::Value> = ["a", "b", "c"][..np].iter().map(|n| value::Value(value::Node::Variant(n.to_string(), Box::new(value::Node::Bool(true))))).collect();
+        let refs: Vec<&value::Value> = parents.iter().collect();
+        let sp = *rng.pick(&[0.0, 0.5, 0.25]);
+        let cparams = CrossoverParams { crossover_prob: 1.0, selection_pressure: sp };
+        let crossover = Crossover::new();
+        let mut outs = Vec::new();
+        for _ in 0..64 {
+            let mut path_ctx = PathContext::default();
+            for p in &parents { path_ctx.add_nodes_for(p); }
+            let mut std_rng = StdRng::seed_from_u64(rng.next());
+            outs.push(enc_value(&crossover.crossover(&spec, &refs, &cparams, &mut path_ctx, &mut std_rng).0));
+        }
+        return json!({"mode": "mix", "variantRoot": true, "spec": enc_spec(&spec.0), "parents": parents.iter().map(|p| enc_value(&p.0)).collect::<Vec<_>>(),
+                      "sp": crate::ops::pclass(sp), "outs": outs});
+    }
     let as_array = rng.chance(1, 3);
     let leaf = |rng: &mut Rng| -> spec::Node { match rng.below(3) { 0 => spec::Node::Bool { init: false }, 1 => spec::Node::Int { init: 0, scale: 1.0, min: Some(-5), max: Some(5) }, _ => spec::Node::Enum { values: vec!["p".into(), "q".into(), "r".into()], init: "p".into() } } };
     let node = if as_array { spec::Node::Array { value_type: Box::new(leaf(rng)), size: k } } else {
@@ -167,6 +189,7 @@ fn f_bound(v: &J, _s: f64) -> f64 { v.as_f64().unwrap() }
 fn f_grid(v: &J, _s: f64) -> f64 { let a = v["a"].as_i64().unwrap() as f64; let b = v["b"].as_i64().unwrap() as f64; (a - 7.0) * (a - 7.0) + (b + 3.0) * (b + 3.0) }
 fn f_onemax(v: &J, _s: f64) -> f64 { v.as_array().unwrap().iter().filter(|b| !b.as_bool().unwrap()).count() as f64 }
 fn f_mapsize(v: &J, _s: f64) -> f64 { (v.as_object().unwrap().len() as f64 - 10.0).abs() }
+fn f_mapshrink(v: &J, _s: f64) -> f64 { (v.as_object().unwrap().len() as f64 - 2.0).abs() }
 fn f_choice(v: &J, _s: f64) -> f64 {
     // optimum: variant "b" with enum value "z"
     match v.as_object().unwrap().iter().next().unwrap() { (k, x) if k == "b" => match x.as_str().unwrap() { "z" => 0.0, "y" => 1.0, _ => 2.0 }, _ => 3.0 }
@@ -185,6 +208,7 @@ pub fn battery() -> Vec<Problem> {
     v.push(Problem { name: "grid".into(), spec: "a:\n  type: int\n  init: 50\n  scale: 10\n  min: -100\n  max: 100\nb:\n  type: int\n  init: -50\n  scale: 10\n  min: -100\n  max: 100\n".into(), budget: 2000, f: f_grid, scale: 1.0 });
     v.push(Problem { name: "onemax".into(), spec: "type: array\nsize: 16\nvalueType:\n  type: bool\n  init: false\n".into(), budget: 2000, f: f_onemax, scale: 1.0 });
     v.push(Problem { name: "mapsize".into(), spec: "type: anon map\ninitSize: 1\nvalueType:\n  type: bool\n  init: false\n".into(), budget: 1000, f: f_mapsize, scale: 1.0 });
+    v.push(Problem { name: "mapshrink".into(), spec: "type: anon map\ninitSize: 7\nvalueType:\n  type: bool\n  init: false\n".into(), budget: 1000, f: f_mapshrink, scale: 1.0 });
     v.push(Problem { name: "choice".into(), spec: "type: variant\ninit: a\na:\n  type: real\n  init: 0.0\n  scale: 1.0\nb:\n  type: enum\n  values: [x, y, z]\n  init: x\n".into(), budget: 500, f: f_choice, scale: 1.0 });
     v
 }
